@@ -47,8 +47,14 @@ async fn do_proxy_request(
             b"Malformed CONNECT request",
         ));
     };
+    // `Authority::host` keeps the brackets of an IPv6 literal; the server expects the bare address
+    let host = target.host();
+    let host = host
+        .strip_prefix('[')
+        .and_then(|h| h.strip_suffix(']'))
+        .unwrap_or(host);
     // Needs an owned copy so that the upgrade task can access it
-    let host = Bytes::copy_from_slice(target.host().as_bytes());
+    let host = Bytes::copy_from_slice(host.as_bytes());
     let port = target.port_u16().unwrap_or_else(|| {
         if req.uri().scheme() == Some(&Scheme::HTTPS) {
             443
